@@ -124,6 +124,14 @@ def run_shard(spec):
             obs["pass_through"] += 1
             return
         nontriv.add(B.h64(text))
+        try:
+            out_again = doc.rebuild()
+        except Exception as exc:  # noqa: BLE001
+            out_again = f"<{type(exc).__name__}>"
+        if out == text and out_again != out:
+            B.record(res, {"effect": "second-rebuild-differs", "source": source}, {"text": text, **meta},
+                     f"FIRST={out!r} SECOND={out_again!r}"[:1500])
+            return
         if out != text:
             a, b = text.split("\n"), out.split("\n")
             d = next((i for i in range(min(len(a), len(b))) if a[i] != b[i]), min(len(a), len(b)))
